@@ -798,6 +798,7 @@ func (x *FnExec) finish(args []Val) {
 				name += "." + r.what
 			}
 			x.oblige(name, "post", ens.Src, r.st.reach, env.EvalBool(ens.E))
+			x.obls[len(x.obls)-1].Clause = ens.E
 		}
 		if !con.ModAll {
 			x.frameObligation("frame."+r.what, r.st.reach, x.entry.heaps, r.st.heaps, con.Modifies, x.envFor(con, fn, args, nil, x.entry.heaps, x.entry.heaps, x.entry.alloc), x.entry.alloc, true)
